@@ -1,10 +1,4 @@
 use chrono::Duration;
-use nom::branch::alt;
-use nom::bytes::complete::tag;
-use nom::character::complete::char;
-use nom::combinator::{map, opt};
-use nom::multi::many1;
-use nom::number::complete::double;
 use nom::IResult;
 
 // Constants representing time units in nanoseconds
@@ -13,14 +7,19 @@ const MILLISECOND: u64 = 1_000_000;
 const MICROSECOND: u64 = 1_000;
 
 /// Parses a duration string into a [`Duration`]. Duration strings support the
-/// following grammar:
+/// following grammar (that of Go's `time.ParseDuration`):
 ///
-/// DurationString -> Sign? Number Unit String?
-/// Sign           -> '-'
-/// Number         -> Digit+ ('.' Digit+)?
+/// DurationString -> Sign? ('0' | Term+)
+/// Sign           -> '-' | '+'
+/// Term           -> Number Unit
+/// Number         -> Digit+ ('.' Digit*)? | '.' Digit+
 /// Digit          -> '0' | '1' | '2' | '3' | '4' | '5' | '6' | '7' | '8' | '9'
-/// Unit           -> 'h' | 'm' | 's' | 'ms' | 'us' | 'ns'
-/// String         -> DurationString
+/// Unit           -> 'h' | 'm' | 's' | 'ms' | 'us' | 'µs' | 'ns'
+///
+/// The whole string must match: text left over after the last term, a missing unit, a sign
+/// inside the string and non-decimal numbers (exponents, `inf`, `nan`) are errors, and so is
+/// a total outside the range of 64-bit nanoseconds. All arithmetic is exact; fractions of a
+/// nanosecond are truncated.
 ///
 /// # Examples
 /// - `1h` parses as 1 hour
@@ -32,62 +31,87 @@ const MICROSECOND: u64 = 1_000;
 /// - `1ns` parses as 1 nanosecond
 /// - `1.5ns` parses as 1 nanosecond (sub-nanosecond durations not supported)
 pub fn parse_duration(i: &str) -> IResult<&str, Duration> {
-    let (i, neg) = opt(parse_negative)(i)?;
-    if i == "0" {
-        return Ok((i, Duration::zero()));
+    let fail = |rest| {
+        Err(nom::Err::Error(nom::error::Error::new(
+            rest,
+            nom::error::ErrorKind::Verify,
+        )))
+    };
+    let (neg, mut s) = match i.strip_prefix('-') {
+        Some(rest) => (true, rest),
+        None => (false, i.strip_prefix('+').unwrap_or(i)),
+    };
+    if s == "0" {
+        return Ok(("", Duration::zero()));
     }
-    let (i, duration) = many1(parse_number_unit)(i)
-        .map(|(i, d)| (i, d.iter().fold(Duration::zero(), |acc, next| acc + *next)))?;
-    Ok((i, duration * if neg.is_some() { -1 } else { 1 }))
-}
-
-enum Unit {
-    Nanosecond,
-    Microsecond,
-    Millisecond,
-    Second,
-    Minute,
-    Hour,
-}
-
-impl Unit {
-    fn nanos(&self) -> i64 {
-        match self {
-            Unit::Nanosecond => 1,
-            Unit::Microsecond => 1_000,
-            Unit::Millisecond => 1_000_000,
-            Unit::Second => 1_000_000_000,
-            Unit::Minute => 60 * 1_000_000_000,
-            Unit::Hour => 60 * 60 * 1_000_000_000,
+    if s.is_empty() {
+        return fail(s);
+    }
+    // Total magnitude in nanoseconds; one more than i64::MAX is needed for i64::MIN.
+    const LIMIT: u128 = 1 << 63;
+    let mut total: u128 = 0;
+    while !s.is_empty() {
+        // the integer part, then an optional fraction
+        let int_len = s.bytes().take_while(u8::is_ascii_digit).count();
+        let (int_digits, rest) = s.split_at(int_len);
+        let (frac_digits, rest) = match rest.strip_prefix('.') {
+            Some(after) => {
+                let n = after.bytes().take_while(u8::is_ascii_digit).count();
+                after.split_at(n)
+            }
+            None => ("", rest),
+        };
+        if int_digits.is_empty() && frac_digits.is_empty() {
+            return fail(s);
         }
+        // the unit: everything up to the next digit or '.'
+        let unit_len = rest
+            .char_indices()
+            .find(|(_, c)| c.is_ascii_digit() || *c == '.')
+            .map_or(rest.len(), |(idx, _)| idx);
+        let (unit, rest) = rest.split_at(unit_len);
+        let unit_ns: u128 = match unit {
+            "ns" => 1,
+            "us" | "\u{b5}s" | "\u{3bc}s" => 1_000,
+            "ms" => 1_000_000,
+            "s" => 1_000_000_000,
+            "m" => 60 * 1_000_000_000,
+            "h" => 60 * 60 * 1_000_000_000,
+            _ => return fail(s),
+        };
+        let mut term: u128 = 0;
+        for d in int_digits.bytes() {
+            term = term * 10 + (d - b'0') as u128 * unit_ns;
+            if term > LIMIT {
+                return fail(s);
+            }
+        }
+        // 25 fractional digits keep the product within u128; further digits are beyond
+        // any precision a nanosecond count can reflect and are ignored
+        let mut scale: u128 = 1;
+        let mut frac: u128 = 0;
+        for d in frac_digits.bytes().take(25) {
+            frac = frac * 10 + (d - b'0') as u128;
+            scale *= 10;
+        }
+        total += term + frac * unit_ns / scale;
+        if total > LIMIT {
+            return fail(s);
+        }
+        s = rest;
     }
-}
-
-fn parse_number_unit(i: &str) -> IResult<&str, Duration> {
-    let (i, num) = double(i)?;
-    let (i, unit) = parse_unit(i)?;
-    let duration = to_duration(num, unit);
-    Ok((i, duration))
-}
-
-fn parse_negative(i: &str) -> IResult<&str, ()> {
-    let (i, _): (&str, char) = char('-')(i)?;
-    Ok((i, ()))
-}
-
-fn parse_unit(i: &str) -> IResult<&str, Unit> {
-    alt((
-        map(tag("ms"), |_| Unit::Millisecond),
-        map(tag("us"), |_| Unit::Microsecond),
-        map(tag("ns"), |_| Unit::Nanosecond),
-        map(char('h'), |_| Unit::Hour),
-        map(char('m'), |_| Unit::Minute),
-        map(char('s'), |_| Unit::Second),
-    ))(i)
-}
-
-fn to_duration(num: f64, unit: Unit) -> Duration {
-    Duration::nanoseconds((num * unit.nanos() as f64).trunc() as i64)
+    let nanos: i64 = if neg {
+        match total {
+            LIMIT => i64::MIN,
+            t => -(t as i64),
+        }
+    } else {
+        match i64::try_from(total) {
+            Ok(t) => t,
+            Err(_) => return fail(i),
+        }
+    };
+    Ok(("", Duration::nanoseconds(nanos)))
 }
 
 /// Formats a [`Duration`] into a string. String returns a string representing the
